@@ -4,6 +4,7 @@ import I18n.Lemmas.ParseSound
 import I18n.Lemmas.ParseString
 import I18n.Lemmas.LRNoCrash
 import I18n.Lemmas.ParseCFG
+import I18n.Lemmas.LexRegex
 import I18n.Generated.PluralGrammar
 import I18n.Spec.PluralY
 /-!
@@ -105,6 +106,28 @@ theorem tokens_unique {s : List Char} {ts ts' : List PluralParse.Tok} (h : Spec.
 /-- no tokenisation ⇒ the lexer's syntax error, never another outcome -/
 theorem lex_rejects_iff (s : List Char) : PluralParse.lex s = .syntaxError ↔ ¬ ∃ ts, Spec.Tokens s ts :=
   PluralParse.lex_syntaxError_iff s
+
+/-- **The lexer regenerated from the source.**  `PluralLex.lex` interprets the regular expressions dumped from the
+    live rply `Lexer` (a `re.match` for the syntax subset they use: literals, classes with ranges and `\t`, greedy `+`
+    and `?` with backtracking) inside rply's `LexerStream.next` loop; it is the same function as the hand-written
+    lexer model — so `lex_complete_sound` speaks about the rules the tool declares, whatever they are today. -/
+theorem lex_regex_eq (s : List Char) :
+    PluralLex.lex s = match PluralParse.lex s with
+      | .ok ts => .ok ts | .syntaxError => .lexingError | .valueError => .crash := by
+  rw [PluralLex.lex_eq]; cases PluralParse.lex s <;> rfl
+
+theorem lex_regex_iff_tokens (s : List Char) (ts : List PluralParse.Tok) :
+    PluralLex.lex s = .ok ts ↔ Spec.Tokens s ts := by
+  rw [← lex_complete_sound, lex_regex_eq]
+  cases PluralParse.lex s <;> simp
+
+/-- neither an unreadable rule, nor an empty match, nor an unknown token text ever occurs -/
+theorem lex_regex_never_crashes (s : List Char) : PluralLex.lex s ≠ .crash := by
+  rw [lex_regex_eq]
+  cases h : PluralParse.lex s with
+  | ok ts => simp
+  | syntaxError => simp
+  | valueError => exact absurd h (PluralParse.lexGo_never_valueError _ s none (Nat.le_refl _))
 
 /-- **Structure, soundness.**  Whatever the parser model accepts is derived by the stratified C grammar
     (`Spec.D`: `?:` right-associative and lowest, then `||`, `&&`, `== !=`, `< <= > >=`, `+ -`, `* / %`
